@@ -24,7 +24,9 @@ PASSWORDS = {
     "looks-like-command": ("PASS Xq USER", "PASS Xr USER"),
 }
 SPELLINGS = ["PASS", "pass", "PaSs", "pAsS"]
-OUTCOMES = ["accepted", "rejected", "out-of-sequence", "after-login", "over-limit"]
+OUTCOMES = ["accepted", "rejected", "out-of-sequence", "after-login", "over-limit", "abandoned"]
+# "abandoned": the account check itself takes time (a user manager that awaits, as one backed by a database would) and the
+# connection ends - QUIT pipelined behind PASS, reset, server shutdown, idle timeout - while the password is being checked
 # what happens right after the PASS exchange: nothing special, or an error path of the dispatcher
 # (idle timeout, undecodable line, peer reset, server shutdown) while PASS is the last command seen
 AFTER = ["pwd-quit", "idle-timeout", "garbage", "reset", "server-close"]
@@ -70,6 +72,41 @@ def one_run(args):
             simnet.CUR_SESSION.set(1)
         c = factory()
         await c.connect("127.0.0.1", W.CTL_PORT)
+        if outcome == "abandoned":
+            gate = asyncio.Event()
+            orig = w.server.user_manager.authenticate
+
+            async def slow(user, password):
+                await gate.wait()
+                return await orig(user, password)
+            w.server.user_manager.authenticate = slow
+            await c.stream.write(b"USER u1\r\n")
+            await c.command(None, ("2xx", "3xx", "5xx"))
+            await c.stream.write((spelling + " " + pw + "\r\n").encode("utf-8"))
+            for _ in range(5):
+                await asyncio.sleep(0)
+            try:
+                if after == "pwd-quit":
+                    await c.stream.write(b"QUIT\r\n")
+                    await asyncio.sleep(0.1)
+                    c.close()
+                elif after == "idle-timeout":
+                    await asyncio.sleep(3)
+                elif after == "garbage":
+                    await c.stream.write(b"\xff\xfe\xfd\r\n")
+                    await asyncio.sleep(1)
+                elif after == "reset":
+                    c.stream.writer.transport.abort()
+                    await asyncio.sleep(1)
+                elif after == "server-close":
+                    await w.server.close()
+            except Exception:
+                pass
+            gate.set()
+            await asyncio.sleep(1)
+            observed["o"] = "abandoned"
+            sent["n"] = len(pw.rstrip())
+            return True
         if via_client:
             try:
                 await c.login("u1", pw)
@@ -152,7 +189,7 @@ def run(tier, seed):
             for after in AFTER:
                 if after != "pwd-quit" and tier == "quick" and rng.random() < 0.5:
                     continue
-                if outcome != "out-of-sequence":
+                if outcome not in ("out-of-sequence", "abandoned"):
                     plan.append((cls, pw, twin, "PASS", outcome, True, after))
                 for sp in (SPELLINGS if tier != "quick" and after == "pwd-quit" else SPELLINGS[:3] if after == "pwd-quit" else [rng.choice(SPELLINGS)]):
                     plan.append((cls, pw, twin, sp, outcome, False, after))
